@@ -488,7 +488,8 @@ pub fn run(o: &DriveOpts, out: &mut dyn Write, tid: usize) -> Value {
         while ok && rec.events < o.steps {
             let gs = rng.gen_range(1..=7usize.min(win));
             let hs = rng.gen_range(1..=7usize.min(win));
-            let ex = if rng.gen_bool(0.25) { rng.gen_range(1..=2) } else { 0 };
+            // extras: usually none, sometimes one or two, now and then more than a group's worth (17..30 isolated vertices)
+            let ex = if win >= 48 && rng.gen_bool(0.12) { rng.gen_range(17..=30) } else if rng.gen_bool(0.25) { rng.gen_range(1..=2) } else { 0 };
             let (ok1, gv) = tree(&mut rng, &mut rec, &mut w, 0, gs, 0);
             let (ok2, hv) = tree(&mut rng, &mut rec, &mut w, 1, hs, ex);
             ok = ok1 && ok2;
